@@ -21,12 +21,16 @@ FilterOf(j) == CASE j.k = "iter"    -> [k |-> "iter", its |-> Range(j.its)]
 Filters(app) == [n \in DOMAIN app.fs |-> FilterOf(app.fs[n])]
 Proj(F) == [n \in DOMAIN F |-> [uid |-> F[n].uid, h |-> F[n].h]]
 Expected(r, app) == Proj(Composite(Filters(app), r.frame, r.hasST))
+Expected2(r, app) == Proj(Composite(Filters(app), r.frame2, r.hasST))
 
 C18(r) ==
   [ no_exception     |-> r.err = "" /\ \A n \in DOMAIN r.apps : r.apps[n].err = "",
     known_patterns   |-> \A n \in DOMAIN r.apps : \A m \in DOMAIN r.apps[n].fs :
                             r.apps[n].fs[m].k = "name" => r.apps[n].fs[m].pat \in FilterPatterns,
     selection        |-> \A n \in DOMAIN r.apps : r.apps[n].err = "" => r.apps[n].out = Expected(r, r.apps[n]),
+    \* the same filter objects applied again after the symbol table and the frame have grown
+    selection_after_growth |-> \A n \in DOMAIN r.apps2 : r.apps2[n].err = "" => r.apps2[n].out = Expected2(r, r.apps2[n]),
+    no_exception_after_growth |-> \A n \in DOMAIN r.apps2 : r.apps2[n].err = "",
     input_unmodified |-> r.err = "" => r.after = Proj(r.frame) ]
 
 Verdict(r) == LET c == C18(r) IN { k \in DOMAIN c : ~c[k] }
